@@ -233,6 +233,20 @@ _TRANS = {
     "C02": (["Gws.Props.TransWindow", "Gws.Props.TransNego", "Gws.Props.TransEmit", "Gws.Props.TransCompress"],
             ["TransEquiv.slideWindow_Write_eq", "TransEquiv.BinaryPow_eq", "TransEquiv.setThreshold_eq", "TransEquiv.emitMessage_eq", "TransEquiv.stripTail_eq", "TransEquiv.compressData_eq"]),
 }
+# clauses of the properties stated directly of the translated source (Gws/Props/TransProps.lean)
+_TPROPS = {
+    "C03": ["TransProps.header_violation_1002", "TransProps.header_fields"],
+    "C13": ["TransProps.oversize_frame_1009"],
+    "C04": ["TransProps.oversize_frame_1009"],
+    "C05": ["TransProps.genFrame_decodes", "TransProps.local_close_body"],
+    "C06": ["TransProps.close_reply_table", "TransProps.close_reply_short", "TransProps.local_close_body"],
+    "C12": ["TransProps.server_bits_in_range", "TransProps.client_bits_in_range"],
+    "C16": ["TransProps.gate_text", "TransProps.gate_binary_never", "TransProps.gate_off_never"],
+    "C17": ["TransProps.window_is_suffix", "TransProps.disabled_window_stays_empty"],
+}
+for _p, _ths in _TPROPS.items():
+    _m, _t = _TRANS[_p]
+    _TRANS[_p] = (_m + ["Gws.Props.TransProps"], _t + _ths)
 for _p, (_mods, _ths) in _TRANS.items():
     PROPS[_p]["trans_modules"] = _mods
     PROPS[_p]["theorems"] = PROPS[_p]["theorems"] + _ths
